@@ -116,4 +116,18 @@ theorem tie_newPeriodLimit_sem (period quota : Int) (pre : String) (opts : List 
     simp only [List.foldlM_cons, ha, Option.bind_some, List.foldl_cons]
     exact ih _
 
+/-! ### round 5e: where the local limiter is built -/
+
+/-- **The in-process limiter is allocated in exactly one place, the constructor** (so one bucket per instance for its
+whole life: `PropsApi.local_bucket_survives_outages`, `flapping_store_local_bound`): no function of tokenlimit.go assigns
+`rescueLimiter` — not `startMonitor` (seeded change C03-10), not `waitForRedis`, not `reserveN` —, nor takes its address;
+`rate` and `burst`, from which it is built, are written by the constructor only as well.  The model agrees: `startMonitor`
+and both monitor events leave `Inst.rescue` alone. -/
+theorem tie_rescueLimiter_allocation_sem :
+    rescueLimiterWrites = ["NewTokenLimiter:literal"] ∧ burstWrites = ["NewTokenLimiter:literal"] ∧
+    rateWrites = ["NewTokenLimiter:literal"] ∧
+    (∀ inst : Inst, inst.startMonitor.rescue = inst.rescue) := by
+  refine ⟨by decide, by decide, by decide, ?_⟩
+  intro inst; unfold Inst.startMonitor; split <;> rfl
+
 end GoZero.C03.TieClient
